@@ -114,6 +114,33 @@ func init() {
 			}
 			return reflectFieldByIndex(fr, a[0], index)
 		},
+		// reflect.Value.MapRange / *MapIter: the iteration order is a schedule choice when the
+		// caller is a zog package (like `range` over a map), the sorted order otherwise
+		"(reflect.Value).MapRange": func(fr *frame, a []value) value {
+			mt, ok := rV2T(a[0]).t.Underlying().(*types.Map)
+			m, ok2 := rV2V(a[0]).(map[value]value)
+			if !ok || !ok2 {
+				panic(pathAbort{"unsupported: reflect.Value.MapRange over this kind of map"})
+			}
+			sched := fr.caller != nil && isZogPkg(fnPkgPath(fr.caller.fn))
+			keys := permute(sortedKeys(m), sched)
+			it := &mapIterState{kt: mt.Key(), et: mt.Elem(), m: m, keys: keys, idx: -1}
+			var cell value = structure{nativeBox{it}}
+			return &cell
+		},
+		"(*reflect.MapIter).Next": func(fr *frame, a []value) value {
+			it := (*a[0].(*value)).(structure)[0].(nativeBox).v.(*mapIterState)
+			it.idx++
+			return it.idx < len(it.keys)
+		},
+		"(*reflect.MapIter).Key": func(fr *frame, a []value) value {
+			it := (*a[0].(*value)).(structure)[0].(nativeBox).v.(*mapIterState)
+			return makeReflectValue(it.kt, it.keys[it.idx])
+		},
+		"(*reflect.MapIter).Value": func(fr *frame, a []value) value {
+			it := (*a[0].(*value)).(structure)[0].(nativeBox).v.(*mapIterState)
+			return makeReflectValue(it.et, it.m[it.keys[it.idx]])
+		},
 		"(reflect.Value).FieldByIndexErr": func(fr *frame, a []value) (res value) {
 			index := make([]int, len(a[1].([]value)))
 			for k, ix := range a[1].([]value) {
@@ -201,9 +228,6 @@ func init() {
 			}
 			panic(pathAbort{"unsupported: reflect SetMapIndex on a non-builtin map"})
 		},
-		"(reflect.Value).MapRange": func(fr *frame, a []value) value {
-			panic(pathAbort{"unsupported: reflect.Value.MapRange"})
-		},
 	} {
 		if f != nil {
 			externals[k] = f
@@ -245,4 +269,11 @@ func init() {
 		}
 		return z
 	}
+}
+
+type mapIterState struct {
+	kt, et types.Type
+	m      map[value]value
+	keys   []value
+	idx    int
 }
